@@ -220,8 +220,10 @@ PROPS = {
     },
     "C01": {
         "module": 'MF.Props.C01Tables',
-        "module_extra": ['MF.Props.C01Expr', 'MF.Props.C01Types', 'MF.Props.C01Query'],  # C01Query = Task X
-        "theorems": ['MF.Props.C01.gen_unread',
+        "module_extra": ['MF.Props.C01Expr', 'MF.Props.C01Types', 'MF.Props.C01Query', 'MF.Props.C01DML'],  # C01Query = Task X, C01DML = Task S
+        "theorems": ['MF.Props.C01.dml_roundtrip_tokens', 'MF.Props.C01.dml_print_derivable', 'MF.Props.C01.dml_fixed_point',
+            'MF.Props.C01.dmlPrinted_reads', 'MF.Props.C01.dml_example_roundtrip',
+            'MF.Props.C01.gen_unread',
             'MF.Props.C01.gen_unread_matches_extractor',
             'MF.Props.C01.gen_prec_eq_spec',
             'MF.Props.C01.gen_parenCmp',
@@ -249,7 +251,7 @@ PROPS = {
             'MF.Props.C01.query_print_derivable',
             'MF.Props.C01.query_roundtrip_tokens_partial',
             'MF.Props.C01.query_print_fixed_point'],
-        "channels": ['TREE', 'EXPR', 'TYPE', 'QUERY'],
+        "channels": ['TREE', 'EXPR', 'TYPE', 'QUERY', 'DML'],
         "pred": True,
         "level": 'proof',
         "trusted_base": ['hand-written model MF/Model/{Basic,Char,Utf8,Token,Lexer,File}.lean of lexer.go, char/*.go, token/{token,keywords,file}.go',
@@ -263,7 +265,8 @@ PROPS = {
             'MF/Spec/TypeShift.lean, MF/Spec/TypeReads.lean; lexer model MF/Model/Lexer.lean (LEX channel)',
             'no Lean model of the other productions of parser.go: the predicate runs the real entry points; table obligations over the regenerated sql.go/ast.go tables (unread fields, '
             'precedence table)'],
-        "assumptions": ['proved for the expression fragment M1 (atoms, parentheses, prefix, binary, comparison-family, postfix operators) at BYTE level, on the models of lexer.go, the expression ladder '
+        "assumptions": ['proved for the DML fragment M2 at TOKEN level (MF/Props/C01DML.lean; model MF/Model/Stmt2.lean, whose SQL() text the DML channel compares with Go byte for byte on every accepted request): any token list that reads as SQL() of a statement (PrintStmt sqlToks: INTO and FROM always printed, AS iff written, names by value, slots by sqlToks) is a sentence of G_DML, the model parses it to the one tree it can have, equal to the statement up to position fields and the canonical spelling of position keywords, and that tree prints the same text (dml_roundtrip_tokens, dml_fixed_point); hypothesis NoCast (no unquoted SAFE_CAST / REPLACE_FIELDS token); the lexer step from the bytes of SQL() to such a token list is NOT proved for DML (explored by the predicate)',
+            'proved for the expression fragment M1 (atoms, parentheses, prefix, binary, comparison-family, postfix operators) at BYTE level, on the models of lexer.go, the expression ladder '
             "and the SQL() methods: roundtrip_expr_partial: for every input accepted by the expression model, the SQL() text lexes (printed_lexes: to exactly the printer's tokens) and parses "
             'to the same tree; fixed_point_expr: unparse output is a fixed point; hypothesis NoCastIdent (no identifier spelled SAFE_CAST / REPLACE_FIELDS), shown necessary for the model by '
             'a kernel-checked counterexample',
@@ -276,8 +279,9 @@ PROPS = {
     },
     "C02": {
         "module": 'MF.Props.C01Tables',
-        "module_extra": ['MF.Props.C01Expr', 'MF.Props.C01Types', 'MF.Props.C01Query'],  # C01Query = Task X
-        "theorems": ['MF.Props.C01.gen_unread',
+        "module_extra": ['MF.Props.C01Expr', 'MF.Props.C01Types', 'MF.Props.C01Query', 'MF.Props.C01DML'],  # C01Query = Task X, C01DML = Task S
+        "theorems": ['MF.Props.C01.dml_lossless', 'MF.Props.C01.dml_lossless_parsed', 'MF.Props.C01.dml_lossless_tree', 'MF.Props.C01.dml_print_derivable',
+            'MF.Props.C01.gen_unread',
             'MF.Props.C01.gen_unread_matches_extractor',
             'MF.Props.C01.gen_prec_eq_spec',
             'MF.Props.C01.gen_parenCmp',
@@ -294,7 +298,7 @@ PROPS = {
             'MF.Props.C01.query_print_lossless',
             'MF.Props.C01.select_trailing_only',
             'MF.Props.C01.query_print_derivable'],
-        "channels": ['TREE', 'EXPR', 'TYPE', 'QUERY'],
+        "channels": ['TREE', 'EXPR', 'TYPE', 'QUERY', 'DML'],
         "pred": True,
         "level": 'proof',
         "trusted_base": ['hand-written model MF/Model/{Basic,Char,Utf8,Token,Lexer,File}.lean of lexer.go, char/*.go, token/{token,keywords,file}.go',
@@ -308,7 +312,8 @@ PROPS = {
             'MF/Spec/TypeShift.lean, MF/Spec/TypeReads.lean; lexer model MF/Model/Lexer.lean (LEX channel)',
             'no Lean model of the other productions of parser.go: the predicate runs the real entry points; table obligations over the regenerated sql.go/ast.go tables (unread fields, '
             'precedence table)'],
-        "assumptions": ['proved for the expression fragment M1 (atoms, parentheses, prefix, binary, comparison-family, postfix operators) at BYTE level, on the models of lexer.go, the expression ladder '
+        "assumptions": ['proved for the DML fragment M2 at TOKEN level (MF/Props/C01DML.lean): the tokens a statement was parsed from read as its print (PrintStmt yield) after inserting the INTO of an INSERT / the FROM of a DELETE when it was left out — nothing else is added, nothing is lost, AS stays where it was written (dml_lossless, dml_lossless_parsed, dml_lossless_tree); slot tokens and printed slot tokens differ only in the spelling of position keywords (sqlToks e = yield (canonKw e), C07)',
+            'proved for the expression fragment M1 (atoms, parentheses, prefix, binary, comparison-family, postfix operators) at BYTE level, on the models of lexer.go, the expression ladder '
             'and the SQL() methods: lossless_expr: the significant tokens of the SQL() text are those of the input token by token (keyword case, <>/!=, quoting, trivia erased; a position '
             'keyword comes back in canonical spelling); hypothesis NoCastIdent (no identifier spelled SAFE_CAST / REPLACE_FIELDS), shown necessary for the model by a kernel-checked '
             'counterexample',
@@ -320,7 +325,8 @@ PROPS = {
     },
     "C05": {
         "module": 'MF.Props.C05Types',
-        "theorems": ['MF.Props.C05.type_positions',
+        "theorems": ['MF.Props.C05.dml_fields_aligned_partial', 'MF.Props.C05.dml_fields_aligned_parsed_partial', 'MF.Props.C05.dml_ident_span',
+            'MF.Props.C05.type_positions',
             'MF.Props.C05.type_positions_fails_backquoted',
             'MF.Props.C05.ex_positions',
             'MF.Props.C05.erase_parse',
@@ -351,7 +357,7 @@ PROPS = {
             'MF.Props.C05.span_facts',
             'MF.Props.C05.span_nested',
             'MF.Props.C05.span_ordered'],
-        "channels": ['TREE', 'TYPE', 'EXPRPOS', 'QUERY'],
+        "channels": ['TREE', 'TYPE', 'EXPRPOS', 'QUERY', 'DML'],
         "pred": True,
         "level": 'proof',
         "trusted_base": ['expression fragment: hand-written model MF/Model/ExprPos.lean of parser.go parseExpr..parseLit WITH the position fields of the Go nodes and of the generated Pos()/End() of '
@@ -373,7 +379,8 @@ PROPS = {
             'VALUES input only, expression slots inside M1), generic in the expression parser; tied to the four entry points by the DML channel (every field and position, Pos()/End() of every node, SQL()); '
             'specification MF/Spec/DMLGrammar.lean (G_DML written from the doc comments of ast/ast.go, expression slots abstract: yields of table-grouped normal forms, the vocabulary of C07)',
             'no Lean model of the other productions of parser.go: the predicate runs the real entry points'],
-        "assumptions": ['proved for the expression fragment only (expr_positions); the other productions of parser.go are not modelled',
+        "assumptions": ['proved for the DML fragment M2, statement level, PARTIAL (MF/Props/C05DML.lean): every position field stored in the statement-level nodes of a parsed INSERT / DELETE / UPDATE (keyword positions, Lparen / Rparen, DefaultPos, As, Where, NamePos of every Ident of the statement level) is the Pos of a token of the statement and the fields in source order are the positions of a sublist of the consumed tokens (dml_fields_aligned_partial), NameEnd is the End of the same token (dml_ident_span); End() of the statement-level nodes (token lengths, End() of the expression slots) and the nesting of the slot nodes are NOT proved for DML: compared with Go on every accepted request of the DML channel (every field, Pos()/End() of every node)',
+            'proved for the expression fragment only (expr_positions); the other productions of parser.go are not modelled',
             "proved for the ParseType entry point (model lexer + model parser, every accepted input): every node starts and ends on a token boundary ('>>'/'<>' counted as two one-byte "
             'tokens), is non-empty, in range, and contains its children in order without overlap (type_positions), except for the KNOWN DEFECT of a back-quoted simple type name (End two '
             'bytes short; type_positions_fails_backquoted proves the exclusion necessary); every other entry point is explored only',
@@ -381,7 +388,7 @@ PROPS = {
             'they make one-site slips (a wrong addend, a position read after nextToken(), an end chain that forgets or misorders a clause) deterministic failures that name the row; exceptions are '
             'explicit tables in MF/Props/C05Offsets.lean and C05Chains.lean (assumed sites, known findings, exempt kinds) that fail the check when they go stale',
             'every other entry point and node kind: exploration of the real entry points over corpus, probes, the reference grammar G, grafts, edits, mutations and soups (partial)'],
-        "module_extra": ['MF.Props.C05Expr', 'MF.Props.C05Offsets', 'MF.Props.C05Chains', 'MF.Props.C05Query'],
+        "module_extra": ['MF.Props.C05Expr', 'MF.Props.C05Offsets', 'MF.Props.C05Chains', 'MF.Props.C05Query', 'MF.Props.C05DML'],
     },
     "C06": {
         "module": 'MF.Props.C06Types',
@@ -454,6 +461,7 @@ PROPS = {
             'MF.Props.C08.dml_complete_top',
             'MF.Props.C08.dml_unique',
             'MF.Props.C08.dml_entry_points_agree',
+            'MF.Props.C08.dml_complete_top_fuel', 'MF.Props.C08.dml_complete_top_driver',
             'MF.Props.C08.dml_ex_derivable',
             'MF.Props.C08.dml_ex_agree',
             # Task X
